@@ -342,3 +342,51 @@ package core
 //@   ensures [error_or_panic_is_never_a_success] ghost.fwd == old(ghost.fwd) + 1 && (ghost.npanic > old(ghost.npanic) || ghost.ret_err != nil) ==>
 //@       result1 != nil && result0 == nil && ghost.encoded == old(ghost.encoded)
 //@   ensures [undecodable_is_an_error] ghost.fwd == old(ghost.fwd) ==> result1 != nil && result0 == nil
+
+// ---- client call path (C10) ---------------------------------------------------
+//
+// Client.Transport derives a cancellable context for every call (with the call's timeout when it
+// has one), registers the cancel function under cancelLock so that Abort can reach it, and on
+// every exit - return, error or panic of the transport - unregisters it again and cancels.
+// Abort cancels every registered call. The wait of a call is therefore always bounded by its
+// context (the transports' waits all select on ctx.Done(): rule select_arms in their packages).
+
+//@ guarded Client.cancelFuncs by cancelLock
+
+//@ iface Transport.Transport(self, ctx, request) (response, err)
+//@   havoc
+//@   modifies ghost.transported
+//@   ensures ghost.transported == old(ghost.transported) + 1
+//@   ensures_panic ghost.transported == old(ghost.transported) + 1
+//@ iface Transport.Abort(self)
+//@   nopanic
+//@   havoc
+//@   modifies ghost.aborted
+//@   ensures ghost.aborted == old(ghost.aborted) + 1
+//@ ghost transported int
+//@ ghost aborted int
+
+//@ func (*Client).Transport
+//@   prop C10
+//@   havoc
+//@   modifies ghost.transported, ghost.cancel_calls, ghost.list_len[*], ghost.list_in[*], ghost.list_next[*], ghost.list_rest[*], ghost.list_first[*], ghost.held[addr(c.cancelLock)]
+//@   requires c != nil && c.cancelFuncs != nil && ghost.ccof[ival(ctx)] != nil && ghost.ccof[ival(ctx)].URL != nil
+//@   stable c.cancelFuncs
+//@   ensures [registration_removed_on_return] ghost.list_len[ref(c.cancelFuncs)] == old(ghost.list_len[ref(c.cancelFuncs)])
+//@   ensures_panic [registration_removed_on_panic] ghost.list_len[ref(c.cancelFuncs)] == old(ghost.list_len[ref(c.cancelFuncs)])
+//@   ensures [context_cancelled_after_the_call] ghost.transported == old(ghost.transported) + 1 ==> ghost.cancel_calls >= old(ghost.cancel_calls) + 1
+//@   ensures_panic [context_cancelled_after_a_panicking_call] ghost.transported == old(ghost.transported) + 1 ==> ghost.cancel_calls >= old(ghost.cancel_calls) + 1
+//@   ensures [lock_released] ghost.held[addr(c.cancelLock)] == 0
+//@   ensures_panic [lock_released_on_panic] ghost.held[addr(c.cancelLock)] == 0
+
+//@ func (*Client).Abort
+//@   prop C10
+//@   havoc
+//@   modifies ghost.cancel_calls, ghost.aborted, ghost.spawned, ghost.wg[*], ghost.list_len[*], ghost.list_in[*], ghost.list_first[*], ghost.held[addr(c.cancelLock)]
+//@   requires c != nil && c.cancelFuncs != nil && ghost.list_nonnil[ref(c.cancelFuncs)] == 1 && ghost.list_len[ref(c.cancelFuncs)] >= 0
+//@   stable c.cancelFuncs
+//@   loop 1 invariant ghost.held[addr(c.cancelLock)] == 1 && ghost.list_len[ref(c.cancelFuncs)] == ghost.list_rest[ref(e)] &&
+//@       (e != nil ==> ghost.list_in[ref(e)] == ref(c.cancelFuncs)) && (e == nil ==> ghost.list_rest[ref(e)] == 0) &&
+//@       ghost.cancel_calls == old(ghost.cancel_calls) + old(ghost.list_len[ref(c.cancelFuncs)]) - ghost.list_len[ref(c.cancelFuncs)]
+//@   ensures [every_pending_call_is_cancelled] ghost.cancel_calls == old(ghost.cancel_calls) + old(ghost.list_len[ref(c.cancelFuncs)])
+//@   ensures [no_registration_left] ghost.list_len[ref(c.cancelFuncs)] == 0
